@@ -91,7 +91,7 @@ theorem C06_tie_controller :
     Gen.calls_qbft_ctrl_ProcessMsg = ["BaseMsgValidation", "IsDecidedMsg", "UponDecided", "isFutureMessage", "UponExistingInstanceMsg"] ∧
     Gen.calls_qbft_ValidateDecided = ["IsDecidedMsg", "Validate", "BaseCommitValidation", "Validate", "HashDataRoot"] ∧
     Gen.calls_qbft_UponDecided =
-      ["ValidateDecided", "InstanceForHeight", "NewInstance", "AddMsg", "addNewInstance", "IsDecided", "AddMsg",
+      ["ValidateDecided", "InstanceForHeight", "FindInstance", "addNewInstance", "NewInstance", "AddMsg", "addNewInstance", "IsDecided", "AddMsg",
        "LongestUniqueSignersForRoundAndRoot", "AddMsg", "FindInstance", "SaveInstance", "NewDecidedHandler"] ∧
     Gen.calls_qbft_UponExistingInstanceMsg = ["InstanceForHeight", "IsDecided", "ProcessMsg", "broadcastDecided"] ∧
     Gen.calls_qbft_StartNewInstance =
